@@ -847,4 +847,9 @@ def _readonly_glue(funcs, text):
     return smt_stack.readonly_glue(funcs, text)
 
 
-UNITS = {"readonly_glue": _readonly_glue, "proto_glue": _proto_glue, "stack_ops_glue": _stack_ops_glue, "stack_gou_glue": _stack_gou_glue, "stack_finalize_glue": _stack_finalize_glue, "c08_planner": c08_planner, "c07_apply_glue": c07_apply_glue, "c12_mapping": c12_mapping, "c10_trigger": c10_trigger, "c07_prune_glue": c07_prune_glue}
+def _builder_glue(funcs, text):
+    from . import smt_stack
+    return smt_stack.builder_glue(funcs, text)
+
+
+UNITS = {"builder_glue": _builder_glue, "readonly_glue": _readonly_glue, "proto_glue": _proto_glue, "stack_ops_glue": _stack_ops_glue, "stack_gou_glue": _stack_gou_glue, "stack_finalize_glue": _stack_finalize_glue, "c08_planner": c08_planner, "c07_apply_glue": c07_apply_glue, "c12_mapping": c12_mapping, "c10_trigger": c10_trigger, "c07_prune_glue": c07_prune_glue}
